@@ -77,6 +77,54 @@ decreasing_by
   all_goals simp only [List.length_drop, List.length_cons]
   all_goals omega
 
+/-! A linear-time implementation of `escLoop` for COMPILED code (the driver of the correspondence check), proved equal to
+the definition above and installed with `@[csimp]`: the compiler may substitute only what `escLoop_eq_fast` proves, nothing
+is trusted.  (The definition above appends to the pending run, which is quadratic on strings of tens of kilobytes.)
+Proofs keep reasoning about `escLoop`. -/
+
+/-- same loop, the pending run kept reversed -/
+def flushR (rp : Bytes) : List Bytes := if rp.isEmpty then [] else [rp.reverse]
+
+def escBytes (b : Nat) : List Bytes :=
+  if b == 92 || b == 34 then [[92], [b]]
+  else if b == 10 then [[92], [110]]
+  else if b == 13 then [[92], [114]]
+  else if b == 9 then [[92], [116]]
+  else [[92, 117, 48, 48], [hexDigit (b / 16)], [hexDigit (b % 16)]]
+
+def escLoopR (s : Bytes) (rp : Bytes) : List Bytes :=
+  match s with
+  | [] => flushR rp
+  | b :: rest =>
+    if b < 0x80 then
+      if 0x20 ≤ b && b != 92 && b != 34 then escLoopR rest (b :: rp)
+      else flushR rp ++ escBytes b ++ escLoopR rest []
+    else
+      if _h : (decodeRune (b :: rest)).2 ≤ 1 then
+        flushR rp ++ [[92, 117, 102, 102, 102, 100]] ++ escLoopR rest []
+      else if (decodeRune (b :: rest)).1 == 0x2028 || (decodeRune (b :: rest)).1 == 0x2029 then
+        flushR rp ++ [[92, 117, 50, 48, 50], [hexDigit ((decodeRune (b :: rest)).1 % 16)]]
+          ++ escLoopR ((b :: rest).drop (decodeRune (b :: rest)).2) []
+      else
+        escLoopR ((b :: rest).drop (decodeRune (b :: rest)).2)
+          (((b :: rest).take (decodeRune (b :: rest)).2).reverse ++ rp)
+termination_by s.length
+decreasing_by
+  all_goals simp only [List.length_drop, List.length_cons]
+  all_goals omega
+
+theorem escLoopR_eq (s : Bytes) (rp : Bytes) : escLoopR s rp = escLoop s rp.reverse := by
+  fun_induction escLoopR s rp
+  all_goals rw [escLoop]
+  all_goals (try simp only [flushR, escBytes, List.isEmpty_reverse])
+  all_goals (repeat' split)
+  all_goals simp_all
+
+def escLoopFast (s : Bytes) (pend : Bytes) : List Bytes := escLoopR s pend.reverse
+
+@[csimp] theorem escLoop_eq_fast : @escLoop = @escLoopFast := by
+  funext s pend; simp [escLoopFast, escLoopR_eq]
+
 /-- `emitString` -/
 def emitString (s : Bytes) : List Bytes := [[34]] ++ escLoop s [] ++ [[34]]
 
